@@ -50,6 +50,22 @@ ASSUME.update({
 def assumptions(cid):
     return ASSUME.get(cid, [])
 
+# Reach probes that must be non-zero after a complete, clean run at the registered run count.  A sweep that silently
+# does nothing (its loop bound computed wrong, its generator never choosing it) otherwise looks like a clean pass.
+REQUIRED = {
+    "C03": ["exec.reader", "exec.cursor", "exec.decoder", "exec.readto", "exec.filter", "exec.iter", "exec.push", "exec.entry.stream", "exec.entry.iter",
+            "crossmode_comparisons", "faults.channel_fired", "boundary.json.after_backslash", "boundary.json.inside_utf8", "boundary.json.between_surrogates",
+            "boundary.json.after_exp", "boundary.csv.after_cr", "boundary.cbor.binary", "boundary.bson.binary", "boundary.msgpack.binary", "boundary.ubjson.binary"],
+    "C05": ["exec.reader", "exec.cursor", "exec.decoder", "exec.push", "exec.sink", "faults.sink_failure_fired", "sink.big_documents",
+            "faults.stream_failure_kind1_fired", "faults.stream_failure_kind2_fired", "faults.stream_failure_kind3_fired", "faults.channel_fired",
+            "faults.truncation_of_valid_document", "faults.truncation_of_valid_json_text", "reach.truncated_top_level_number", "plans.toon", "plans.json", "plans.csv", "plans.cbor", "plans.bson", "plans.msgpack", "plans.ubjson"],
+    "C10": ["claim_checks", "faults.claim_and_starve_fired", "limit_checks", "exec.encoder_nest", "exec.reader", "exec.cursor", "exec.decoder", "exec.iter",
+            "stack_ops_at_depth_1024", "stack_ops_at_depth_200000", "op.destroy", "op.copy", "op.compare", "op.dump", "op.parse"],
+    "C15": ["faults.abort_injected", "diff_pairs", "patches.history.ok", "patches.abort.abort", "patches.abort_tail.abort", "faults.abort.move_into_child", "faults.abort.test_mismatch"],
+    "C19": ["faults_fired", "allocs_total"],
+    "C20": ["baton_switches", "preemption_points", "ops_compared", "op.schema.is_valid", "op.jsonpath.evaluate", "op.jmespath.evaluate", "op.doc.copy", "guarded_static_inits_in_concurrent_phase"],
+}
+
 def coverage(cid, stats, distinct, samples, runs, wall, total):
     ev = {"C19": stats.get("faults_fired", runs), "C03": stats.get("executions", runs), "C05": stats.get("executions", runs),
           "C10": stats.get("executions", 0) + stats.get("plans", 0), "C15": stats.get("patches_applied", runs), "C20": stats.get("ops_compared", runs)}.get(cid, runs)
@@ -86,4 +102,6 @@ def coverage(cid, stats, distinct, samples, runs, wall, total):
         cov["simulated_time"] = {"unit": "source read events (logical I/O time)", "value": int(stats.get("io_events", 0))}
         cov["faults_injected"] = {k[len("faults."):]: int(v) for k, v in stats.items() if k.startswith("faults.")}
         cov["reach_probes"] = {k[len("boundary."):]: int(v) for k, v in stats.items() if k.startswith("boundary.")}
+        cov["reach_probes"].update({k[len("reach."):]: int(v) for k, v in stats.items() if k.startswith("reach.")})
+    cov["required_probes_nonzero"] = {k: int(stats.get(k, 0)) for k in REQUIRED.get(cid, [])}
     return cov
